@@ -54,9 +54,28 @@ def gen_config(rnd, ca, plat):
                     if rnd.random() < 0.15 and g != "UNDEFINED":
                         toks = [act, "ip", kw, g, kw, g]
                 lines.append(" ".join(toks))
+        if rnd.random() < 0.15:      # entries longer than 100 characters are entries like any other
+            lines.insert(rnd.randint(0, len(lines)), "remark " + "long text " * 12 + "end")
+        if rnd.random() < 0.15:
+            lines.insert(rnd.randint(0, len(lines)),
+                         "permit tcp 100.100.100.0 0.0.0.255 range 10000 20000 200.200.200.0 0.0.0.255 range 30000 40000 "
+                         "ack fin psh rst syn urg log-input" if plat == "ios" else
+                         "permit tcp 100.100.100.0 0.0.0.255 range 10000 20000 200.200.200.0 0.0.0.255 range 30000 40000 "
+                         "ack fin psh rst syn urg log")
         acls[n] += lines
         head = f"ip access-list {types[n]} {n}" if plat == "ios" else f"ip access-list {n}"
-        return [head] + [indent + l for l in lines]
+        return [head] + with_comments([indent + l for l in lines])
+
+    def with_comments(body):
+        """comment lines may stand anywhere, also between the lines of one section"""
+        out_ = []
+        for l in body:
+            if rnd.random() < 0.12:
+                # comment lines start in column 0 (an indented "!" is a body line for this parser: in an address
+                # group it is refused like any other non-address, which is C12's concern, not a comment)
+                out_.append(rnd.choice(["!", "! note", "!" + indent + "x", "!permit ip any any"]))
+            out_.append(l)
+        return out_
 
     for n in acl_names:
         sections.append(("acl", acl_section(n)))
@@ -67,7 +86,7 @@ def gen_config(rnd, ca, plat):
         lines = []
         for (b, m) in groups[g]:
             lines.append(ag.spell_ag(rnd, plat, b, m)[1])
-        sections.append(("grp", [head] + [indent + l for l in lines]))
+        sections.append(("grp", [head] + with_comments([indent + l for l in lines])))
     binds = {n: {"in": set(), "out": set()} for n in acl_names}
     for i in range(rnd.randint(0, 4)):
         ifn = f"interface Ethernet1/{i}"
@@ -82,7 +101,7 @@ def gen_config(rnd, ca, plat):
                     binds[n][d].add(ifn)
             else:
                 body.append(rnd.choice(["description uplink", "no shutdown", "ip address 10.0.0.1 255.255.255.0"]))
-        sections.append(("if", [ifn] + [indent + l for l in body]))
+        sections.append(("if", [ifn] + with_comments([indent + l for l in body])))
         if rnd.random() < 0.3:     # the same interface again: its settings accumulate
             n = rnd.choice(acl_names + ["OTHER"])
             d = rnd.choice(["in", "out"])
@@ -113,7 +132,7 @@ def gen_config(rnd, ca, plat):
     bodies = {n: [] for n in acl_names}
     for kind, sec in sections:
         if kind == "acl":
-            bodies[sec[0].split()[-1]] += [l.strip() for l in sec[1:]]
+            bodies[sec[0].split()[-1]] += [l.strip() for l in sec[1:] if not l.strip().startswith("!")]
     ast = {"order": order, "bodies": bodies, "types": types, "groups": {g: [list(x) for x in v] for g, v in groups.items()},
            "binds": {n: {d: sorted(v) for d, v in b.items()} for n, b in binds.items()}}
     return "\n".join(out) + "\n", ast
